@@ -135,6 +135,9 @@ EXTRA = {
    '//@ ensures [C07] first: ncalls() >= 1 && calleeIs(0, "invokeExpr") && arg(0) == expr.Item',
    '//@ ensures [C07] slots: forall k int :: 1 <= k && k < ncalls() && calleeIs(k, "invokeExpr") ==> res(k-1) == nil && ((expr.Begin != nil && k == 1 && arg(k) == expr.Begin) || (expr.End != nil && k == ite(expr.Begin != nil, 2, 1) && arg(k) == expr.End) || (expr.Cap != nil && k == (ite(expr.Begin != nil, 1, 0) + ite(expr.End != nil, 1, 0) + 1) && arg(k) == expr.Cap))',
    '//@ ensures [C07] allbounds: runInfo.err == nil && (rvKind(unwrap(res2(0))) == reflect.Slice || rvKind(unwrap(res2(0))) == reflect.Array) ==> ncalls() == (ite(expr.Begin != nil, 1, 0) + ite(expr.End != nil, 1, 0) + 1) + ite(expr.Cap != nil, 1, 0) + 1 && (forall k int :: 0 <= k && k < ncalls() - 1 ==> calleeIs(k, "invokeExpr"))',
+   '// ... on a string, s[lo:hi] is Go\'s substring s[lo:hi] (missing bounds 0 / len(s)); a capacity bound is an error',
+   '//@ ensures [C10 C20] substr: runInfo.err == nil && rvKind(unwrap(res2(0))) == reflect.String && expr.Begin != nil && expr.End != nil && rvKind(res2(1)) == reflect.Int64 && rvKind(res2(2)) == reflect.Int64 ==> expr.Cap == nil && ncalls() == 3 && runInfo.rv == rvSlice2(unwrap(res2(0)), rvInt(res2(1)), rvInt(res2(2)))',
+   '//@ ensures [C10] strcap: ncalls() >= 1 && res(0) == nil && rvKind(unwrap(res2(0))) == reflect.String && expr.Cap != nil ==> runInfo.err != nil',
    '//@ ensures [C10] two: runInfo.err == nil && expr.Cap == nil && rvKind(unwrap(res2(0))) == reflect.Slice ==> ncalls() >= 2 && calleeIs(ncalls()-1, "(reflect.Value).Slice3") && arg(ncalls()-1) == unwrap(res2(0)) && res3(ncalls()-1) == rvCap(unwrap(res2(0)))'],
  "invokeItemExpr": [
    '//@ ensures [C07] order: ncalls() >= 1 && ncalls() <= 2 && calleeIs(0, "invokeExpr") && arg(0) == expr.Item && (ncalls() == 2 ==> res(0) == nil && calleeIs(1, "invokeExpr") && arg(1) == expr.Index) && (runInfo.err == nil ==> ncalls() == 2)'],
@@ -196,7 +199,8 @@ EXTRA = {
    '//@ ensures [C11] entrywise: result.1 == nil ==> result.0 == newMap && ncalls() == 4*(ncalls()/4) + 1 && calleeIs(ncalls()-1, "(*reflect.MapIter).Next") && res(ncalls()-1) == 0 && (forall k int :: 0 <= k && 4*k < ncalls() - 1 ==> calleeIs(4*k, "(*reflect.MapIter).Next") && res(4*k) == 1 && calleeIs(4*k+3, "(reflect.Value).SetMapIndex") && arg(4*k+3) == newMap && res(4*k+3) == res2(4*k+1) && res2(4*k+3) == res2(4*k+2))'],
  "convertVMFunctionToType": ['//@ requires [C01] okvin: rvValid(rv) && rt != nil', '//@ ensures [C01] okv: rvValid(result.0)'],
  "invokeDerefExpr": ['// C20: the operand is what the evaluated expression denotes, also when it was read from an interface-typed element',
-   '//@ ensures [C20] ptr: ncalls() == 1 && res(0) == nil && rvKind(unwrap(res2(0))) == reflect.Ptr ==> runInfo.err == nil && runInfo.rv == rvElem(unwrap(res2(0)))',
+   '//@ ensures [C20] ptr: ncalls() == 1 && res(0) == nil && rvKind(unwrap(res2(0))) == reflect.Ptr && !rvIsNil(unwrap(res2(0))) ==> runInfo.err == nil && runInfo.rv == rvElem(unwrap(res2(0)))',
+   '//@ ensures [C20 C01] nilptr: ncalls() == 1 && res(0) == nil && rvKind(unwrap(res2(0))) == reflect.Ptr && rvIsNil(unwrap(res2(0))) ==> runInfo.err != nil',
    '//@ ensures [C20] nonptr: ncalls() == 1 && res(0) == nil && rvKind(unwrap(res2(0))) != reflect.Ptr ==> runInfo.err != nil'],
  "invokeIncludeExpr": ['// C06/C20/C07: `item in list` evaluates item, then list, and answers whether vm.equal holds between the item and some element',
    '// of the list (the same relation as == and switch); the list is what the expression denotes (unwrapped)',
@@ -222,6 +226,8 @@ EXTRA = {
    '//@ ensures [C10 C20] elem: runInfo.err == nil && ncalls() == 2 && (rvKind(unwrap(res2(0))) == reflect.Slice || rvKind(unwrap(res2(0))) == reflect.Array) && rvKind(res2(1)) == reflect.Int64 ==> 0 <= rvInt(res2(1)) && rvInt(res2(1)) < rvLen(unwrap(res2(0))) && runInfo.rv == rvIndexV(unwrap(res2(0)), rvInt(res2(1)))',
    '//@ ensures [C10 C20] range: ncalls() == 2 && res(1) == nil && (rvKind(unwrap(res2(0))) == reflect.Slice || rvKind(unwrap(res2(0))) == reflect.Array || rvKind(unwrap(res2(0))) == reflect.String) && rvKind(res2(1)) == reflect.Int64 && (rvInt(res2(1)) < 0 || rvInt(res2(1)) >= rvLen(unwrap(res2(0)))) ==> runInfo.err != nil && runInfo.rv == nilValue',
    '//@ ensures [C10 C20] inrange: ncalls() == 2 && res(1) == nil && (rvKind(unwrap(res2(0))) == reflect.Slice || rvKind(unwrap(res2(0))) == reflect.Array) && rvKind(res2(1)) == reflect.Int64 && 0 <= rvInt(res2(1)) && rvInt(res2(1)) < rvLen(unwrap(res2(0))) ==> runInfo.err == nil',
+   '// ... on a string, s[i] in range is the one-byte string Go\'s string(s[i]) gives (the indexed byte converted to string)',
+   '//@ ensures [C10 C20] strelem: ncalls() == 2 && res(1) == nil && rvKind(unwrap(res2(0))) == reflect.String && rvKind(res2(1)) == reflect.Int64 && 0 <= rvInt(res2(1)) && rvInt(res2(1)) < rvLen(unwrap(res2(0))) ==> runInfo.err == nil && runInfo.rv == rvConvert(rvIndexV(unwrap(res2(0)), rvInt(res2(1))), stringType)',
    '//@ ensures [C10] other: ncalls() == 2 && res(1) == nil && rvKind(unwrap(res2(0))) != reflect.Slice && rvKind(unwrap(res2(0))) != reflect.Array && rvKind(unwrap(res2(0))) != reflect.String && rvKind(unwrap(res2(0))) != reflect.Map ==> runInfo.err != nil'],
  "invokeLetItemSlice": ['// C10: x[i] = v on a slice or array: in range, exactly element i receives v converted to the element type; at i == len',
    '// the converted value is appended and the grown slice assigned back to x; any error (non-numeric or out-of-range index,',
@@ -253,6 +259,9 @@ EXTRA = {
    '// what the two operands hold - no shortcut through identity of storage',
    '//@ ensures [C06] containers: !nilV(lhsV) && !nilV(rhsV) && rvKind(eqD(lhsV)) == rvKind(eqD(rhsV)) && (rvKind(eqD(lhsV)) == reflect.Slice || rvKind(eqD(lhsV)) == reflect.Map) ==> result == deepEqS(rvIface(eqD(lhsV)), rvIface(eqD(rhsV)))', '//@ ensures [C06] nil: (nilV(lhsV) || nilV(rhsV)) ==> result == (nilV(lhsV) && nilV(rhsV))',
            '//@ ensures [C06] core: !nilV(lhsV) && !nilV(rhsV) && corePair(eqD(lhsV), eqD(rhsV)) ==> result == eqV(lhsV, rhsV)',
+           '// C06 (symmetry): two floats of different width are compared through ONE rendering of each operand (numToString) - a relation that does',
+           '// not depend on which operand is on the left (converting one side to the width of the other would)',
+           '//@ ensures [C06] mixedfloat: !nilV(lhsV) && !nilV(rhsV) && isFloatK(rvKind(eqD(lhsV))) && isFloatK(rvKind(eqD(rhsV))) && rvKind(eqD(lhsV)) != rvKind(eqD(rhsV)) ==> result == (numStrS(eqD(lhsV)) == numStrS(eqD(rhsV)))',
            '// C06: a string and a number are equal exactly when the string is a decimal numeral denoting that number - decided in the integer',
            '// domain when the numeral is an integer (exact over the whole int64 range, in BOTH operand orders), in float64 otherwise',
            '//@ ensures [C06] numstrint: !nilV(lhsV) && !nilV(rhsV) && rvKind(eqD(lhsV)) == reflect.Int64 && rvKind(eqD(rhsV)) == reflect.String && decStr(rvStr(eqD(rhsV))) && parseIntOK(rvStr(eqD(rhsV)), 10, 64) ==> result == (rvInt(eqD(lhsV)) == parseIntVal(rvStr(eqD(rhsV)), 10, 64))',
@@ -262,6 +271,7 @@ EXTRA = {
            '//@ ensures [C06] strnumfloat: !nilV(lhsV) && !nilV(rhsV) && (rvKind(eqD(rhsV)) == reflect.Int64 || rvKind(eqD(rhsV)) == reflect.Float64) && rvKind(eqD(lhsV)) == reflect.String && decStr(rvStr(eqD(lhsV))) && !parseIntOK(rvStr(eqD(lhsV)), 10, 64) && parseFloatOK(rvStr(eqD(lhsV)), 64) ==> result == feq(asF(eqD(rhsV)), parseFloatVal(rvStr(eqD(lhsV)), 64))',
            '//@ ensures [C06] strnumnone: !nilV(lhsV) && !nilV(rhsV) && (rvKind(eqD(rhsV)) == reflect.Int64 || rvKind(eqD(rhsV)) == reflect.Float64) && rvKind(eqD(lhsV)) == reflect.String && decStr(rvStr(eqD(lhsV))) && !parseIntOK(rvStr(eqD(lhsV)), 10, 64) && !parseFloatOK(rvStr(eqD(lhsV)), 64) ==> !result'],
  "isNil": ['//@ ensures [C06] def: result == nilV(v)'],
+ "numToString": ['//@ free_ensures [C06] def: result == numStrS(v)'],
  "tryToBool": ['// truthyV is DEFINED as the first result of tryToBool (a function of the value); the truthiness table is below',
                '//@ free_ensures [C08] def: result.0 == truthyV(v)','//@ ensures [C06 C08] bool: rvKind(deref1(v)) == reflect.Bool ==> result.0 == rvBool(deref1(v)) && result.1 == nil'],
 }
